@@ -55,12 +55,18 @@ type Segment struct {
 func (s *Segment) WriteTo(w io.Writer, _ chan struct{}) (int64, error) {
 	bw := bufio.NewWriter(w)
 
-	n, err := s.data.WriteTo(w)
+	// hash the data as it is written: the footer CRC continues the CRC of
+	// the data, and s.footer.crc of a loaded segment is the CRC of the whole
+	// file it was loaded from, not of the data alone
+	cw := newCountHashWriter(w)
+	n, err := s.data.WriteTo(cw)
 	if err != nil {
 		return n, fmt.Errorf("error persisting segment: %w", err)
 	}
 
-	err = persistFooter(s.footer, bw)
+	footer := *s.footer
+	footer.crc = cw.Sum32()
+	err = persistFooter(&footer, bw)
 	if err != nil {
 		return n, fmt.Errorf("error persisting segment footer: %w", err)
 	}
